@@ -121,6 +121,7 @@ def run_int(tier, seed):
     text = HEAD + ''.join(int_harness(f) for f in ints)
     names = ['f_' + f.name for f in ints]
     out = kani_engine.run_kani(text, names, tag='l1int', timeout=3000)
+    out['harness_text'] = text
     ur.cmds.append(out['cmd'])
     ur.wall_s = out['wall_s']
     collect(ur, out, ints, 'f_', INT_CLAUSES + ['opt.absent_is_one_pattern'], {'C08', 'C01', 'C09', 'C02'})
@@ -144,6 +145,16 @@ def collect(ur, out, fields, prefix, clauses, props):
                 ob.failed = [r['detail'][-1800:]]
                 ob.counterexample = None
             ur.obligs.append(ob)
+        if r['status'] == 'failed':
+            # concrete values for the replay file (best effort)
+            try:
+                cex = kani_engine.concrete_playback(out['harness_text'], prefix + f.name, tag='l1cp') if out.get('harness_text') else None
+            except Exception:
+                cex = None
+            if cex:
+                for ob in ur.obligs:
+                    if ob.failed and ob.id.startswith('df.%s.' % f.name):
+                        ob.counterexample = {'kani_concrete_playback': cex, 'harness': prefix + f.name}
         ur.functions.append({'name': 'df::dfs::%s::{decode,encode}' % f.name, 'lo': 0, 'hi': 0, 'origin': 'compiled crate (Kani)',
                              'path': 'df::dfs::' + f.name, 'n_requires': 0, 'n_ensures': len(clauses), 'n_loops': 0})
     ur.trusted += ['Kani 0.68 + CBMC 6.11 + CaDiCaL; rustc MIR semantics as modelled by Kani (overflow checks on)']
@@ -158,7 +169,68 @@ def run_enc(tier, seed):
     text = HEAD + ''.join(float_enc_harness(f) for f in fl)
     names = ['e_' + f.name for f in fl]
     out = kani_engine.run_kani(text, names, tag='l1enc', timeout=3000)
+    out['harness_text'] = text
     ur.cmds.append(out['cmd'])
     ur.wall_s = out['wall_s']
     collect(ur, out, fl, 'e_', FLOAT_ENC_CLAUSES, {'C09', 'C02'})
+    return ur
+
+
+def float_lossless_harness(f):
+    """bit-precise twin of the S-engine obligation df.<name>.lossless (thorough tier): every w-bit pattern decodes and re-encodes to itself"""
+    B = (f.len + 7) // 8 + 1
+    smexc = ''
+    if f.kind == 'sm':
+        # the redundant negative-zero pattern (sign bit only) normalises to +0: the only admissible difference
+        smexc = 'let negzero = bit_at(&data, 0) == 1 && { let mut z = true; let mut j = 1; while j < LEN { if bit_at(&data, j) == 1 { z = false; } j += 1; } z };\n        if negzero { assert!(bit_at(&out, k) == 0); } else'
+    return '''
+#[kani::proof]
+#[kani::unwind(%(unw)d)]
+fn fl_%(name)s() {
+    use crate::df::dfs::%(name)s as F;
+    const LEN: usize = %(len)d;
+    let data: [u8; %(B)d] = kani::any();
+    let mut par = Parser::new(&data, 0);
+    let r = F::decode(&mut par);
+    assert!(r.is_ok());
+    if let Ok(v) = r {
+        let mut out = [0u8; %(B)d];
+        let (e, off) = { let mut asm = Assembler::new(&mut out, 0); let e = F::encode(&mut asm, &v); (e, asm.offset()) };
+        assert!(e.is_ok());
+        assert!(off == LEN);
+        let k: usize = kani::any();
+        kani::assume(k < LEN);
+        %(smexc)s { assert!(bit_at(&out, k) == bit_at(&data, k)); }
+    }
+}
+''' % {'name': f.name, 'len': f.len, 'B': B, 'unw': max(min(B, f.bits // 8 + 1) + 1, f.len + 2 if f.kind == 'sm' else 0), 'smexc': smexc}
+
+
+def run_float(tier, seed):
+    """thorough tier only: Kani bit-precise lossless check of every float field that CBMC finishes within the per-harness budget"""
+    from units import UnitResult
+    ur = UnitResult('l1float', 'kani-cbmc-cadical')
+    fs, _ = dfinv.fields()
+    fl = [f for f in fs if f.is_float]
+    text = HEAD + ''.join(float_lossless_harness(f) for f in fl)
+    names = ['fl_' + f.name for f in fl]
+    budget = 240
+    out = kani_engine.run_kani(text, names, tag='l1float', timeout=budget * (len(fl) // 12 + 4), extra=['-Z', 'unstable-options', '--harness-timeout', '%ds' % budget])
+    ur.cmds.append(out['cmd'])
+    ur.wall_s = out['wall_s']
+    reached, skipped = 0, []
+    for f in fl:
+        r = out['results']['fl_' + f.name]
+        ur.solver_s += r['time_s'] or 0
+        asserted = r['status'] == 'failed' and any('assertion failed' in c for c in r['failed_checks'])
+        if r['status'] == 'ok' or asserted:
+            ob = Oblig('df.%s.lossless.bit_precise' % f.name, {'C08', 'C01'}, 'kani-assert', 'df::dfs::%s::{decode,encode}' % f.name, 'encode(decode(p)) == p for all %d-bit patterns (CBMC float semantics)' % f.len)
+            if asserted:
+                ob.failed = [r['detail'][-1500:]]
+            ur.obligs.append(ob)
+            reached += 1
+        else:
+            skipped.append('%s(%s,%d bits)' % (f.name, f.dt, f.len))
+    ur.bounded.append('l1float: %d of %d float fields proved bit-precisely by CBMC within %d s each; not reached (S engine only): %s' % (reached, len(fl), budget, ', '.join(skipped[:80])))
+    ur.trusted += ["Kani/CBMC's IEEE-754 encoding of f32/f64 arithmetic"]
     return ur
